@@ -57,3 +57,46 @@ ZOO += [
     ('C17-to-rph-wrap', 'C17', 'transform.py', "return Rotation.from_matrix(mat).as_euler('xyz', degrees=True)",
      "rph = Rotation.from_matrix(mat).as_euler('xyz', degrees=True)\n    return np.where(rph < -179.9999, rph + 360 + 1e-6, rph)"),
 ]
+ZOO += [
+    # ---- C18 differencing / resampling
+    ('C18-sign', 'C18', 'transform.py', "            result_sign = -1.0\n", "            result_sign = 1.0\n"),
+    ('C18-median', 'C18', 'transform.py', "if np.median(np.diff(first.index)) < np.median(np.diff(second.index)):",
+     "if np.median(np.diff(first.index)) > np.median(np.diff(second.index)):"),
+    ('C18-to180-ge', 'C18', 'util.py', "        result[result > 180] -= 360\n", "        result[result >= 180] -= 360\n"),
+    ('C18-slerp-linear', 'C18', 'transform.py',
+     "        result[RPH_COLS] = slerp(times).as_euler('xyz', True)\n",
+     "        result[RPH_COLS] = interp1d(state.index, state[RPH_COLS].values, axis=0)(times)\n"),
+    ('C18-span-open', 'C18', 'transform.py', "    times = times[(times >= state.index[0]) & (times <= state.index[-1])]",
+     "    times = times[(times > state.index[0]) & (times <= state.index[-1])]"),
+    ('C18-mean-radii', 'C18', 'transform.py', "        rn, _, rp = earth.principal_radii(0.5 * (first.lat + second.lat),\n                                          0.5 * (first.alt + second.alt))\n        difference.lat *= rn * DEG_TO_RAD",
+     "        rn, _, rp = earth.principal_radii(0.5 * (first.lat + second.lat),\n                                          0.5 * (first.alt - second.alt))\n        difference.lat *= rn * DEG_TO_RAD"),
+    ('C18-colorder', 'C18', 'transform.py', "    return result[state.columns]\n", "    return result[sorted(state.columns)]\n"),
+    ('C18-perturb-sign', 'C18', 'sim.py', "    result[RPH_COLS] += pva_error[RPH_COLS]\n    return result",
+     "    result[RPH_COLS] += pva_error[RPH_COLS]\n    result['heading'] = util.to_180_range(result['heading'] + 1e-9)\n    return result"),
+]
+ZOO += [
+    # ---- C05 error-state coordinates
+    ('C05-phi-21', 'C05,C17', 'error_model.py', "result[:, 2, 1] = -sin[:, 2] * sin[:, 1] / cos[:, 1]",
+     "result[:, 2, 1] = sin[:, 2] * sin[:, 1] / cos[:, 1]"),
+    ('C05-no-vd-restore', 'C05,C13', 'error_model.py', "        if not self.with_altitude:\n            velocity_n[2] = pva.VD\n", ""),
+    ('C05-2d-rows', 'C05', 'error_model.py', "        result[:, 5, 4] = VE\n        result[:, 5, 5] = -VN\n",
+     "        result[:, 5, 4] = VN\n        result[:, 5, 5] = -VE\n"),
+    ('C05-att-right', 'C05', 'error_model.py', "rph = transform.mat_to_rph(mat_tp @ transform.mat_from_rph(pva[RPH_COLS]))",
+     "rph = transform.mat_to_rph(transform.mat_from_rph(pva[RPH_COLS]) @ mat_tp)"),
+    ('C05-lat-radius', 'C05', 'transform.py', "    lla[:, 0] += np.rad2deg(dr_n[:, 0] / rn)\n", "    lla[:, 0] += np.rad2deg(dr_n[:, 0] / (rn + 2 * lla[:, 2]))\n"),
+]
+ZOO += [
+    # ---- C06 measurement models
+    ('C06-D5-revert', 'C06', 'measurements.py', "ned_velocity_error_jacobian(pva, self.imu_to_antenna_b)", "ned_velocity_error_jacobian(pva)"),
+    ('C06-pos-lever-sign', 'C06', 'error_model.py', "result[:, self.PHI] = util.skew_matrix(mat_nb @ imu_to_antenna_b)",
+     "result[:, self.PHI] = -util.skew_matrix(mat_nb @ imu_to_antenna_b)"),
+    ('C06-R-2d', 'C06', 'measurements.py', "            R = R[:2, :2]\n\n        return z, H, R", "            R = R[:2, :2] * 2\n\n        return z, H, R"),
+    ('C06-time-nearest', 'C06', 'measurements.py', "        if time not in self.data.index:\n            return None\n\n        mat_nb",
+     "        if not np.any(np.isclose(self.data.index, time, rtol=0, atol=1e-3)):\n            return None\n        time = self.data.index[np.argmin(np.abs(self.data.index - time))]\n\n        mat_nb"),
+    ('C06-ned-rate-cross', 'C06', 'measurements.py', "z += mat_nb @ np.cross(pva[RATE_COLS], self.imu_to_antenna_b)",
+     "z += mat_nb @ np.cross(self.imu_to_antenna_b, pva[RATE_COLS])"),
+    ('C06-body-H', 'C06', 'error_model.py', "        result[:, self.DV] = mat_nb.transpose()\n        if not self.with_altitude:",
+     "        result[:, self.DV] = mat_nb.transpose()\n        result[:, self.PHI] = 1e-3 * mat_nb.transpose() @ util.skew_matrix(pva[VEL_COLS])\n        if not self.with_altitude:"),
+    ('C06-sim-body-sign', 'C06', 'sim.py', "velocity_b = util.mv_prod(mat_nb, trajectory[VEL_COLS], at=True) + error",
+     "velocity_b = util.mv_prod(mat_nb, trajectory[VEL_COLS], at=True) - error"),
+]
